@@ -172,9 +172,10 @@ func bytesField(num protowire.Number, payload []byte) wfield {
 // wireOp: one surgical change at a path of (field number, occurrence) steps.
 type wstep struct{ Num, Occ int }
 type wireOp struct {
-	Path []wstep
-	Op   string // "drop" | "empty" | "dup" | "set"
-	Set  []byte // payload for "set"
+	Path   []wstep
+	Op     string // "drop" | "empty" | "dup" | "set"
+	Set    []byte // payload for "set"
+	Varint uint64 // value for "setvarint"
 }
 
 // applyWire applies op to bz; returns bz unchanged (and false) when the path does not exist.
@@ -197,7 +198,7 @@ func applyWire(bz []byte, op wireOp) ([]byte, bool) {
 			if f.Typ != protowire.BytesType {
 				return bz, false
 			}
-			inner, ok := applyWire(f.Val, wireOp{Path: op.Path[1:], Op: op.Op, Set: op.Set})
+			inner, ok := applyWire(f.Val, wireOp{Path: op.Path[1:], Op: op.Op, Set: op.Set, Varint: op.Varint})
 			if !ok {
 				return bz, false
 			}
@@ -214,6 +215,13 @@ func applyWire(bz []byte, op wireOp) ([]byte, bool) {
 			fs[i] = bytesField(f.Num, nil)
 		case "set":
 			fs[i] = bytesField(f.Num, op.Set)
+		case "setvarint":
+			if f.Typ != protowire.VarintType {
+				return bz, false
+			}
+			raw := protowire.AppendTag(nil, f.Num, protowire.VarintType)
+			raw = protowire.AppendVarint(raw, op.Varint)
+			fs[i] = wfield{Num: f.Num, Typ: protowire.VarintType, Raw: raw}
 		case "dup":
 			fs = append(fs[:i+1:i+1], append([]wfield{f}, fs[i+1:]...)...)
 		}
